@@ -12,6 +12,13 @@
    property layer in integer arithmetic on the observed flags / projected gain), plus families TLC did not
    enumerate: every channel count 1..400 around the proportion, long records with runs at the ends, voltages
    read through the real spikeglx.Reader with range_volts as max_voltage.
+4. argument forms and call histories (draw_mode): every realisation draws the element type of the voltages (float64,
+   float32 with the neighbouring float32 values of the threshold, int32 / int64 counts), their memory layout (C, Fortran,
+   a window of a larger array, the transposed [ns, nc] block a Reader returns; writable or read-only), the form of
+   max_voltage (Python / numpy scalars, 0-d, one-element, list, float32, read-only, strided, integer), fs / v_per_sec
+   (given or left to their defaults, other rates), proportion / mute_window_samples given or left to their defaults, the
+   call style (positional / keyword), the same argument objects used twice, and - for a part of them - a call on other
+   voltages between obtaining a result and looking at it.  Both realisations of a record are judged by every clause.
 Numeric clause decided by projection: gain == 0 / == 1 / within [0,1] to 1e-12.
 """
 import copy
@@ -101,29 +108,129 @@ def build(over, slew, rnd, allow_at):
     return sign, lev, real
 
 
-def values(sign, lev, thr, g):
-    nc, ns = sign.shape
-    v = np.zeros((nc, ns))
-    for c in range(nc):
-        th = thr[c]
-        for t in range(ns):
-            l = lev[c][t]
-            if l == "A":
-                x = th
-            elif l == "B":
-                x = np.nextafter(th, 0.0)
-            elif l == "C":
-                x = np.nextafter(th, np.inf)
-            elif l == "Z":
-                x = 0.0
-            else:
-                x = th + l * g
-            v[c, t] = sign[c, t] * x
-    return v
+CODE = {"A": 100, "B": 101, "C": 102, "Z": 103}
+NPTYPE = {"f8": np.float64, "f4": np.float32, "i4": np.int32, "i8": np.int64}
+
+
+def values(sign, lev, thr, g, dtype="f8", thr_alt=None):
+    """level codes -> voltages of element type `dtype`.  thr [nc]: the float64 value of the number the code compares
+    |v| with; thr_alt: a second admissible value of it (single precision range: the product taken in double precision) -
+    'just below' / 'just above' then lie outside both and 'at' is realised as 'just below'.
+    float32: 'just below / just above' are the neighbouring float32 values ('at' exists only when the threshold is a
+    float32 number); the integer levels sit on the float32 neighbour of the threshold (g is a multiple of its spacing, so
+    steps between levels stay exact).  integers: counts, g = 2 counts, 'just above' = first integer above the threshold,
+    'at' / 'just below' = last one not above it"""
+    L = np.array([[CODE.get(l, l) for l in row] for row in lev], dtype=np.int64).reshape(sign.shape)
+    th = np.asarray(thr, dtype=np.float64)[:, np.newaxis]
+    alt = th if thr_alt is None else np.asarray(thr_alt, dtype=np.float64)[:, np.newaxis]
+    lo, hi = np.minimum(th, alt), np.maximum(th, alt)
+    if dtype in ("i4", "i8"):
+        base = np.floor(lo)
+        at = below = base
+        above = np.floor(hi) + 1
+    elif dtype == "f4":
+        l32, h32 = lo.astype(np.float32), hi.astype(np.float32)
+        base = th.astype(np.float32).astype(np.float64)
+        below = np.where(l32.astype(np.float64) < lo, l32, np.nextafter(l32, np.float32(0))).astype(np.float64)
+        above = np.where(h32.astype(np.float64) > hi, h32, np.nextafter(h32, np.float32(np.inf))).astype(np.float64)
+        at = np.where((base == th) & (lo == hi), base, below)
+    else:
+        base = th
+        below = np.nextafter(lo, 0.0)
+        above = np.nextafter(hi, np.inf)
+        at = np.where(lo == hi, th, below)
+    x = base + np.where(L < 100, L, 0) * g
+    x = np.where((L == 100) | (L == 0), at, x)          # level 0 is the threshold itself: not over
+    x = np.where(L == 101, below, x)
+    x = np.where(L == 102, above, x)
+    x = np.where(L == 103, 0.0, x)
+    return (sign * x).astype(NPTYPE[dtype])
+
+
+# ------------------------------------------------------------------------------------------------
+# argument forms and call histories of one realisation (Python primitives only: a mode is stored in the scenario)
+# ------------------------------------------------------------------------------------------------
+MV_SCALAR = ["float", "float", "np64", "0d", "arr1", "list1", "full", "np32"]
+MV_VECTOR = ["f64", "f64", "f32", "list", "ro", "strided"]
+LAYOUTS = ["C", "C", "F", "view", "T"]
+RATES = ["omit", "omit", "fs", "v", "both", "25k"]      # default limit 3e-4 V / sample: which of fs, v_per_sec are passed
+STYLES = ["pos", "pos", "kw", "pos2", "allpos"]
+
+
+def draw_mode(rnd):
+    dt = rnd.choice(["f8"] * 7 + ["f4"] * 2 + [rnd.choice(["i4", "i8"])])
+    per_channel = rnd.random() < 0.5
+    m = {"dtype": dt, "per_channel": per_channel, "layout": rnd.choice(LAYOUTS), "ro": rnd.random() < 0.3,
+         "style": rnd.choice(STYLES), "omit_p": rnd.random() < 0.5, "omit_M": rnd.random() < 0.5, "Mnp": rnd.random() < 0.15,
+         "disturb": rnd.random() < 0.25}
+    if dt in ("i4", "i8"):
+        m.update(exact=True, R=rnd.choice([512, 8192, 2048]), mv=rnd.choice(["int", "float", "full"] if not per_channel
+                                                                           else ["i64", "f64", "list"]),
+                 fs=rnd.choice([1, 2, 4.0]), rate="both")
+    else:
+        # full scales: 1 V, the probes' 0.6 V and 0.6 V / gain, and microvolt units (float32 cannot hold the grid there)
+        m.update(exact=rnd.random() < 0.6, R=rnd.choice([1.0, 0.6, 1.2e-3 * 512, 1.2e-3, 7.5e-3] + ([1200.0] if dt == "f8" else [])),
+                 mv=rnd.choice(MV_VECTOR if per_channel else MV_SCALAR))
+        if m["exact"]:
+            m.update(fs=rnd.choice([1, 1, 2, 0.5, 4.0, 32768]), rate="both")
+        else:
+            m.update(fs=30000, rate=rnd.choice(RATES))
+            if m["rate"] == "25k":
+                m["fs"] = 25000.0
+    return m
+
+
+def grid(mode):
+    if mode["dtype"] in ("i4", "i8"):
+        return 2.0
+    return G_EXACT if mode["exact"] else G_DEFAULT
+
+
+def make_maxv(mode, nc, nprng):
+    integer = mode["dtype"] in ("i4", "i8")
+    form = mode["mv"]
+    if not mode["per_channel"]:
+        R = mode["R"]
+        return {"float": float(R), "int": int(R) if integer else float(R), "np64": np.float64(R), "0d": np.array(float(R)),
+                "arr1": np.array([float(R)]), "list1": [float(R)], "full": np.full(nc, float(R)), "np32": np.float32(R)}[form]
+    if integer:
+        base = nprng.integers(400, 9000, size=nc)
+        return {"i64": base, "f64": base.astype(np.float64), "list": [int(v) for v in base]}[form]
+    base = nprng.uniform(0.5, 2.0, size=nc) * (1.2e-3 if mode["R"] < 0.1 else 1200.0 if mode["R"] > 100 else 1.0)
+    if form == "f32":
+        return base.astype(np.float32)
+    if form == "list":
+        return [float(v) for v in base]
+    if form == "ro":
+        base.flags.writeable = False
+        return base
+    if form == "strided":
+        big = nprng.uniform(0.5, 2.0, size=2 * nc)
+        big[::2] = base
+        return big[::2]
+    return base
+
+
+def lay_out(v, mode, nprng):
+    """the same numbers in another memory layout"""
+    lay = mode["layout"]
+    if lay == "F":
+        d = np.asfortranarray(v)
+    elif lay == "T":                      # what a Reader gives: a [ns, nc] block, transposed
+        d = np.ascontiguousarray(v.T).T
+    elif lay == "view":                   # one chunk of a longer recording with more channels
+        big = (nprng.uniform(-3, 3, size=(v.shape[0] + 2, v.shape[1] + 3)) * max(1.0, float(np.abs(v).max(initial=0)))).astype(v.dtype)
+        big[1:-1, 2:-1] = v
+        d = big[1:-1, 2:-1]
+    else:
+        d = np.ascontiguousarray(v)
+    if mode["ro"]:
+        d.flags.writeable = False
+    return d
 
 
 def realise(co, cs, nc_abs, rep, rnd, nprng, mode, want_at=False):
-    """counts per sample (for nc_abs channels) x replication -> data, kwargs of saturation(), realised co/cs/ca"""
+    """counts per sample (for nc_abs channels) x replication -> data, max_voltage, realised co/cs/ca"""
     ns = len(co)
     nc = nc_abs * rep
     over = np.zeros((nc, ns), dtype=bool)
@@ -138,22 +245,26 @@ def realise(co, cs, nc_abs, rep, rnd, nprng, mode, want_at=False):
             for c in free[:rnd.randint(0, min(len(free), 3))]:
                 slew[c, t] = 2
     sign, lev, real = build(over, slew, rnd, want_at)
-    if mode["per_channel"]:
-        R = nprng.uniform(0.5, 2.0, size=nc)
-        maxv = R
-    else:
-        R = np.full(nc, mode["R"])
-        maxv = mode["R"]
-    thr = R * 0.98                                   # the same floating point product as the code computes
-    g = G_EXACT if mode["exact"] else G_DEFAULT
-    data = values(sign, lev, thr, g)
-    kw = {"max_voltage": maxv}
-    if mode["exact"]:
-        kw.update(fs=1, v_per_sec=8 * G_EXACT)
+    maxv = make_maxv(mode, nc, nprng)
+    # the number |v| is compared with: the same floating point product as the code computes, in the type numpy gives it
+    mv1 = np.atleast_1d(maxv)
+    prod = mv1 * 0.98
+    thr = np.broadcast_to(np.asarray(prod, dtype=np.float64), (nc,))
+    # a single precision range (what Reader.range_volts is): numpy takes the product in single precision; taking it in double
+    # precision is 98 % of the range just as well, so no voltage is placed between the two
+    alt = np.broadcast_to(mv1.astype(np.float64) * 0.98, (nc,)) if prod.dtype == np.float32 else None
+    v = values(sign, lev, thr, grid(mode), mode["dtype"], alt)
+    if (real == 2).any():
+        # a step meant to sit exactly at the limit does not when the two voltages lie in different binades (one of them was
+        # rounded): it is recorded as what it is.  The difference of two neighbours of one sign is exact (Sterbenz)
+        d = np.abs(np.diff(v.astype(np.float64), axis=-1))
+        lim = 8 * grid(mode)
+        real = np.where((real == 2) & (d > lim), 1, np.where((real == 2) & (d < lim), 0, real))
+    data = lay_out(v, mode, nprng)
     cs_real = [int(np.sum(real[:, t] == 1)) for t in range(ns - 1)] + [0]
     ca_real = [int(np.sum(real[:, t] == 2)) for t in range(ns - 1)] + [0]
     co_real = [int(np.sum(over[:, t])) for t in range(ns)]
-    return data, kw, co_real, cs_real, ca_real
+    return data, maxv, co_real, cs_real, ca_real
 
 
 def classify(mute):
@@ -170,46 +281,81 @@ def classify(mute):
     return out
 
 
-def call(data, kw, a, b, M, defaults=False):
+def call(data, maxv, mode, a, b, M):
     from ibldsp import voltage
-    args = dict(kw)
-    if not (defaults and (a, b) == (1, 5) and M == 7):
-        args.update(proportion=a / b, mute_window_samples=M)
+    opt = {}
+    g = grid(mode)
+    if mode["rate"] in ("fs", "both", "25k"):
+        opt["fs"] = mode["fs"]
+    if mode["rate"] in ("v", "both", "25k"):
+        # the limit is 8 g per sample.  exact / integer family: powers of two; default family: 3e-4 V per sample, written
+        # as the default 1e-8 V/s at 30 kHz or as the same step at 25 kHz
+        opt["v_per_sec"] = 1e-8 if (not mode["exact"] and mode["rate"] != "25k") else 8 * g / mode["fs"]
+    if not (mode["omit_p"] and (a, b) == (1, 5)):
+        opt["proportion"] = a / b
+    if not (mode["omit_M"] and M == 7):
+        opt["mute_window_samples"] = np.int64(M) if mode["Mnp"] else M
+    style = mode["style"]
+    if style == "allpos" and len(opt) == 4:
+        def f(d):
+            return voltage.saturation(d, maxv, opt["v_per_sec"], opt["fs"], opt["proportion"], opt["mute_window_samples"])
+    elif style == "kw":                   # the way decompress_destripe_cbin calls it
+        def f(d):
+            return voltage.saturation(data=d, max_voltage=maxv, **opt)
+    elif style == "pos2":
+        def f(d):
+            return voltage.saturation(d, maxv, **opt)
+    else:
+        def f(d):
+            return voltage.saturation(d, max_voltage=maxv, **opt)
     # the function is called twice with the very same argument objects (a caller processes a recording chunk by chunk
     # with one range vector): the second answer is the one judged, so a call that alters its arguments or keeps state
     # between calls shows up as a wrong flag / gain
-    voltage.saturation(data, **args)
-    sat, mute = voltage.saturation(data, **args)
+    f(data)
+    sat, mute = f(data)
+    if mode["disturb"]:
+        # the caller goes on with other voltages before it looks at the answer it holds: the objects returned by the
+        # judged call are looked at after this call
+        other = np.ascontiguousarray(data[:, ::-1]) if M % 2 else np.zeros_like(data)
+        f(other)
     return np.asarray(sat), np.asarray(mute)
 
 
-def record(co, cs, nc_abs, a, b, M, rnd, nprng, reps, want_at=False, extra=None):
-    """two realisations of one abstract input -> one trace record (first realisation is the one described)"""
+def observe(sat, mute):
+    sat, mute = np.asarray(sat), np.asarray(mute, dtype=float)
+    if sat.dtype != bool:
+        sat = sat != 0
+    return ([bool(v) for v in sat.ravel()], classify(mute.ravel()),
+            [int(round(float(np.clip(v, -1, 2)) * 1e6)) if np.isfinite(v) else -999 for v in mute.ravel()])
+
+
+def record(co, cs, nc_abs, a, b, M, rnd, nprng, reps, want_at=False, extra=None, modes=None):
+    """two realisations of one abstract input -> one trace record, both judged (fields of the second one end in 2)"""
     rec = {"nc": 0, "ns": len(co), "a": a, "b": b, "M": M, "co": [], "cs": [], "ca": [], "flags": [], "cls": [], "q": [],
-           "flags2": [], "same": True, "exc": "", "abs": {"nc": nc_abs, "co": list(co), "cs": list(cs), "reps": list(reps)}}
+           "nc2": 0, "co2": [], "cs2": [], "ca2": [], "flags2": [], "cls2": [], "q2": [], "same": True, "exc": "",
+           "abs": {"nc": nc_abs, "co": list(co), "cs": list(cs), "reps": list(reps), "modes": []}}
     if extra:
         rec["abs"].update(extra)
     res = []
     for k, rep in enumerate(reps):
-        mode = {"exact": rnd.random() < 0.6, "per_channel": rnd.random() < 0.5, "R": rnd.choice([1.0, 0.6, 1.2e-3 * 512])}
-        data, kw, co_r, cs_r, ca_r = realise(co, cs, nc_abs, rep, rnd, nprng, mode, want_at and k == 0)
+        mode = dict(modes[k]) if modes else draw_mode(rnd)
+        rec["abs"]["modes"].append(mode)
+        data, maxv, co_r, cs_r, ca_r = realise(co, cs, nc_abs, rep, rnd, nprng, mode, want_at and k == 0)
         if k == 0:
             rec.update(nc=nc_abs * rep, co=co_r, cs=cs_r, ca=ca_r, mode=str(mode))
+        else:
+            rec.update(nc2=nc_abs * rep, co2=co_r, cs2=cs_r, ca2=ca_r)
         try:            # only the code under test may raise into the verdict
-            sat, mute = call(data, kw, a, b, M, defaults=(k == 1))
+            sat, mute = call(data, maxv, mode, a, b, M)
             sat, mute = np.asarray(sat), np.asarray(mute, dtype=float)
         except Exception as e:
             rec["exc"] = type(e).__name__
             return rec
         res.append((sat, mute))
     sat, mute = res[0]
-    if sat.dtype != bool:
-        sat = sat != 0
-    rec["flags"] = [bool(v) for v in sat.ravel()]
-    rec["cls"] = classify(mute.ravel())
-    rec["q"] = [int(round(float(np.clip(v, -1, 2)) * 1e6)) if np.isfinite(v) else -999 for v in mute.ravel()]
+    rec["flags"], rec["cls"], rec["q"] = observe(sat, mute)
     sat2, mute2 = res[-1]
-    rec["flags2"] = [bool(v) for v in sat2.ravel()]
+    rec["flags2"], rec["cls2"], rec["q2"] = observe(sat2, mute2)
     rec["same"] = bool(mute.shape == mute2.shape and np.all(np.abs(mute - mute2) <= TOL))
     return rec
 
@@ -272,18 +418,38 @@ def vkey(rec, clause):
     return f"sat:{clause}"
 
 
+def which(rec, clause):
+    """the call of the record a clause speaks about (clauses of the second call end in ':2')"""
+    two = clause.endswith(":2")
+    modes = rec.get("abs", {}).get("modes", [])
+    mode = modes[1 if two else 0] if len(modes) > (1 if two else 0) else {}
+    sfx = "2" if two else ""
+    out = {k: rec.get(k + sfx, []) for k in ("nc", "co", "cs", "ca", "flags", "q")}
+    out["mode"] = ("second call, " if two else "") + ", ".join(f"{k}={mode[k]}" for k in ("dtype", "layout", "mv", "fs", "rate", "style")
+                                                              if k in mode) if mode else ("second call" if two else "first call")
+    return out
+
+
 def strip(rec):
-    return {k: rec[k] for k in ("abs", "a", "b", "M", "nc", "ns", "co", "cs", "ca", "flags", "cls", "q") if k in rec}
+    return {k: rec[k] for k in ("abs", "a", "b", "M", "nc", "ns", "co", "cs", "ca", "flags", "cls", "q",
+                                "nc2", "co2", "cs2", "ca2", "flags2", "q2") if k in rec}
 
 
 # ------------------------------------------------------------------------------------------------
+PROPS_UNIT = ((1, 2), (1, 3), (1, 10), (1, 400))
+PROPS_OTHER = ((2, 5), (3, 4), (2, 3), (7, 10))
+PROPS = ((1, 5),) + PROPS_UNIT + PROPS_OTHER
+
+
 def extra_families(ctx, rnd, nprng):
     """inputs TLC did not enumerate; expectations come from TLC through the trace spec"""
     recs = []
     # every channel count 1..400, counts just below / at / just above the proportion, over and slew separately
     ncs = range(1, 401) if not ctx.quick else sorted(set(list(range(1, 41)) + rnd.sample(range(41, 401), 60) + [384, 385, 400]))
     for nc in ncs:
-        for (a, b) in ((1, 5), (1, 2), (1, 3), (1, 10)) if not ctx.quick else ((1, 5), rnd.choice([(1, 2), (1, 3), (1, 10)])):
+        if ctx.quick:       # the default, one more unit fraction, one a / b with a > 1 (b dividing nc when there is one: 'at' exists)
+            pr = ((1, 5), rnd.choice(PROPS_UNIT), rnd.choice([q for q in PROPS_OTHER if nc % q[1] == 0] or PROPS_OTHER))
+        for (a, b) in (PROPS if not ctx.quick else pr):
             k = (a * nc) // b
             cnts = sorted({c for c in (k - 1, k, k + 1, 0, nc) if 0 <= c <= nc})
             ns = len(cnts) * 2 + 1
@@ -303,7 +469,7 @@ def extra_families(ctx, rnd, nprng):
     for i in range(nlong):
         ns = rnd.randint(8, 70)
         nc = rnd.choice([1, 2, 5, 16, 64])
-        a, b = rnd.choice([(1, 5), (1, 2)])
+        a, b = rnd.choice([(1, 5), (1, 5), (1, 2), (1, 2), (2, 5), (3, 4)])
         hi = (a * nc) // b + 1
         fl = [0] * ns
         for _ in range(rnd.randint(1, 4)):
@@ -325,18 +491,23 @@ def extra_families(ctx, rnd, nprng):
 
 
 def reader_family(ctx, folder, rnd, nprng):
-    """voltages read through the real Reader, max_voltage = Reader.range_volts (per-channel gains)"""
+    """voltages read through the real Reader, max_voltage = Reader.range_volts (per-channel gains; AP and LF streams).
+    The first call is made the way decompress_destripe_cbin makes it (keywords, defaults for everything else but the
+    slew limit, float32 block transposed, the range looked up after the block was read); the second one on a float64
+    copy with the range vector that was looked up before anything was read, after the reader is closed"""
     import spikeglx
+    from ibldsp import voltage
     out = []
-    cfgs = [("3B2", 12, None, 512), ("3A", 10, None, 512), ("NP2.4", 16, None, 8192), ("3B2", 384, None, 512), ("NP2.1", 384, 0.62, 2048)]
+    cfgs = [("3B2", 12, None, 512, "ap"), ("3A", 10, None, 512, "lf"), ("NP2.4", 16, None, 8192, "ap"), ("3B2", 9, None, 512, "lf"),
+            ("3B1", 11, None, 512, "ap"), ("3B2", 384, None, 512, "ap"), ("NP2.1", 384, 0.62, 2048, "ap")]
     if ctx.quick:
-        cfgs = cfgs[:3]
-    for kind, n, rng_max, maxint in cfgs:
+        cfgs = cfgs[:4]
+    for kind, n, rng_max, maxint, stream in cfgs:
         for rep_i in range(2 if ctx.quick else 6):
             ns = rnd.randint(6, 30)
-            gains = [(rnd.choice([250, 500, 1000]), rnd.choice([125, 250])) for _ in range(n)] if kind in ("3B2", "3A") else None
+            gains = [(rnd.choice([250, 500, 1000]), rnd.choice([125, 250])) for _ in range(n)] if kind in ("3B2", "3A", "3B1") else None
             sites = metagen.dense_sites(kind, nshank=4 if kind == "NP2.4" else 1)[:n]
-            text, info = metagen.make_meta(kind, sites, ns=ns, gains=gains, range_max=rng_max, maxint=maxint)
+            text, info = metagen.make_meta(kind, sites, ns=ns, gains=gains, range_max=rng_max, maxint=maxint, stream=stream)
             a, b = rnd.choice([(1, 5), (1, 2)])
             k = (a * n) // b
             co = [rnd.choice([0, max(k - 1, 0), k, min(k + 1, n), n]) for _ in range(ns)]
@@ -357,14 +528,17 @@ def reader_family(ctx, folder, rnd, nprng):
                     mag = lim + rnd.choice([1, 2, 3]) if over[c, t] else lim - rnd.choice([0, 1, 2])
                     raw[t, c] = s * mag
             raw[:, -1] = nprng.integers(0, 64, size=ns)
-            f = metagen.write_recording(folder, f"sat_{kind.replace('.', '')}_{n}_{rep_i}", text, raw, suffix=".ap")
+            f = metagen.write_recording(folder, f"sat_{kind.replace('.', '')}_{n}_{rep_i}", text, raw, suffix="." + stream)
             rec = {"nc": n, "ns": ns, "a": a, "b": b, "M": 7, "co": co, "cs": cs + [0], "ca": [0] * ns, "flags": [], "cls": [],
-                   "q": [], "flags2": [], "same": True, "exc": "", "abs": {"family": "reader", "kind": kind, "file": f.name}}
+                   "q": [], "nc2": n, "co2": co, "cs2": cs + [0], "ca2": [0] * ns, "flags2": [], "cls2": [], "q2": [], "same": True,
+                   "exc": "", "abs": {"family": "reader", "kind": kind, "stream": stream, "file": f.name}}
             try:
                 sr = spikeglx.Reader(f, sort=False)
                 try:
-                    rv = np.asarray(sr.range_volts[:-1], dtype=np.float64)
-                    want = np.array([info["range_max"] / (g[0] if gains else 80) for g in (gains or [None] * n)])
+                    rv_early = sr.range_volts[:-1]
+                    rv = np.asarray(rv_early, dtype=np.float64)
+                    want = np.array([info["range_max"] / ((g[0] if stream == "ap" else g[1]) if gains else 80)
+                                     for g in (gains or [None] * n)])
                     rec["range_ok"] = bool(rv.shape == want.shape and np.allclose(rv, want, rtol=1e-6, atol=0))
                     rec["range_obs"] = str([float(v) for v in rv[:3]])
                     rec["range_exp"] = str([float(v) for v in want[:3]])
@@ -372,16 +546,13 @@ def reader_family(ctx, folder, rnd, nprng):
                     # slew limit between the small steps (<= 5 counts) and a sign flip (>= 2 * 0.97 maxint counts)
                     s2v = np.asarray(sr.sample2volts[:-1], dtype=np.float64)
                     L = 20 * s2v.max()
-                    from ibldsp import voltage
-                    kw = dict(max_voltage=sr.range_volts[:-1], fs=sr.fs, v_per_sec=L / sr.fs, proportion=a / b)
-                    sat, mute = voltage.saturation(data, **kw)
-                    sat2, mute2 = voltage.saturation(np.asarray(data, dtype=np.float64), **kw)
+                    opt = {} if (a, b) == (1, 5) and rep_i % 2 else {"proportion": a / b}
+                    sat, mute = voltage.saturation(data=data, max_voltage=sr.range_volts[:-1], fs=sr.fs, v_per_sec=L / sr.fs, **opt)
                 finally:
                     sr.close()
-                rec["flags"] = [bool(v) for v in sat]
-                rec["cls"] = classify(mute)
-                rec["q"] = [int(round(float(np.clip(v, -1, 2)) * 1e6)) for v in mute]
-                rec["flags2"] = [bool(v) for v in sat2]
+                sat2, mute2 = voltage.saturation(np.asarray(data, dtype=np.float64), rv_early, L / sr.fs, sr.fs, a / b)
+                rec["flags"], rec["cls"], rec["q"] = observe(sat, mute)
+                rec["flags2"], rec["cls2"], rec["q2"] = observe(sat2, mute2)
                 rec["same"] = bool(np.all(np.abs(mute - mute2) <= TOL))
             except Exception as e:
                 rec["exc"] = type(e).__name__
@@ -432,9 +603,10 @@ def run(ctx):
         ctx.count(2, key=(nc_abs, c["a"], c["b"], c["M"], tuple(c["co"]), tuple(c["cs"])) if any(c["flags"]) else None)
         cl = compare(rec, c)
         if cl:
-            ctx.violation(vkey(rec, cl), f"saturation() on {rec['nc']} channels realising counts over={rec['co']} slew={rec['cs']} "
-                          f"(proportion {c['a']}/{c['b']}, mute_window_samples={c['M']}): clause {cl} false: flags {rec['flags']} "
-                          f"gain {rec['q']} e-6, TLC expects flags {c['flags']} classes {c['cls']}",
+            w = which(rec, cl)
+            ctx.violation(vkey(rec, cl), f"saturation() on {w['nc']} channels realising counts over={w['co']} slew={w['cs']} "
+                          f"(proportion {c['a']}/{c['b']}, mute_window_samples={c['M']}; {w['mode']}): clause {cl} false: flags "
+                          f"{w['flags']} gain {w['q']} e-6, TLC expects flags {c['flags']} classes {c['cls']}",
                           {"kind": "abs", "rec": strip(rec)})
     ctx.sample({"abstract": {k: cases[0][k] for k in ("nc", "ns", "a", "b", "M", "co", "cs", "flags", "cls")},
                 "observed": strip(recs[0])})
@@ -454,9 +626,10 @@ def run(ctx):
     for v in verd:
         r = allr[v["index"]]
         if v["prop"]:
-            ctx.violation(vkey(r, v["prop"]), f"saturation() on {r['nc']} channels, counts over={r['co']} slew={r['cs']} at-limit="
-                          f"{r['ca']} (proportion {r['a']}/{r['b']}, mute_window_samples={r['M']}): clause {v['prop']} false: flags "
-                          f"{[int(f) for f in r['flags']]} gain {r['q']} e-6", {"kind": "abs", "rec": strip(r)})
+            w = which(r, v["prop"])
+            ctx.violation(vkey(r, v["prop"]), f"saturation() on {w['nc']} channels, counts over={w['co']} slew={w['cs']} at-limit="
+                          f"{w['ca']} (proportion {r['a']}/{r['b']}, mute_window_samples={r['M']}; {w['mode']}): clause {v['prop']} "
+                          f"false: flags {[int(f) for f in w['flags']]} gain {w['q']} e-6", {"kind": "abs", "rec": strip(r)})
         elif v["impl"]:
             ndrift += 1
             if ndrift <= 3:
@@ -492,6 +665,18 @@ def compare(rec, c):
             return "OneFar"
     if rec["flags"] == rec["flags2"] and not rec["same"]:
         return "FlagsOnly"
+    # the second realisation (other channel count, element type, layout, argument forms, defaults left out)
+    if len(rec["flags2"]) != c["ns"] or len(rec["cls2"]) != c["ns"]:
+        return "OneValuePerSample:2"
+    if rec["flags2"] != c["flags"]:
+        return "Flag:2"
+    if "X" in rec["cls2"]:
+        return "Range:2"
+    for o, e in zip(rec["cls2"], c["cls"]):
+        if e == "Z" and o != "Z":
+            return "ZeroOnFlag:2"
+        if e == "O" and o != "O":
+            return "OneFar:2"
     return ""
 
 
@@ -517,7 +702,8 @@ def gold(seed):
             q.append(int(round(g * 1e6)))
             cls.append("Z" if fl[t] or g <= TOL else ("O" if g >= 1 - TOL else "P"))
         out.append({"nc": nc, "ns": ns, "a": a, "b": b, "M": M, "co": co, "cs": cs, "ca": [0] * ns, "flags": fl, "cls": cls, "q": q,
-                    "flags2": list(fl), "same": True, "exc": ""})
+                    "nc2": 2 * nc, "co2": [2 * v for v in co], "cs2": [2 * v for v in cs], "ca2": [0] * ns,
+                    "flags2": list(fl), "cls2": list(cls), "q2": list(q), "same": True, "exc": ""})
     return out
 
 
@@ -527,7 +713,7 @@ def selftest(ctx, cases):
     mut = []
     for j, r in enumerate(g):
         t = copy.deepcopy(r)
-        k = j % 6
+        k = j % 8
         tf = next(i for i, f in enumerate(t["flags"]) if f)
         if k == 0:
             t["flags"][tf] = False                     # a flagged sample not reported
@@ -547,8 +733,15 @@ def selftest(ctx, cases):
                 t["cls"][0] = "X"
         elif k == 4:
             t["cls"][0] = "X"                          # gain outside [0, 1]
-        else:
+        elif k == 5:
             t["same"] = False                          # gain depends on something else than the flags
+        elif k == 6:
+            t["flags2"][tf] = False                    # the second call misses a flagged sample
+        else:
+            i0 = next(i for i, f in enumerate(t["flags"]) if not f)
+            t["co2"][i0] = t["nc2"]                    # the second call's voltages have one more saturated sample ...
+            t["flags2"][i0] = True
+            t["cls2"][i0], t["q2"][i0] = "P", 250000   # ... which it flags, but does not mute
         mut.append(t)
     v = tracecheck.validate(ctx, "trace/SaturationTrace.tla", "trace/SaturationTrace.cfg", g + mut, label="selftest", jvms=1,
                             nstates=lambda t: 3)
@@ -593,13 +786,15 @@ def replay(ctx, sc):
             recs = reader_family(ctx, ctx.scratch / "rec", random.Random(ctx.seed), np.random.default_rng(ctx.seed))
         else:
             recs = []
-            for s in range(4):      # the realisation is random: a few of them
+            for s in range(10):     # the realisation is random: a few of them, most with the argument forms of the scenario
                 recs.append(record(a["co"], a["cs"], a["nc"], r["a"], r["b"], r["M"], random.Random(s), np.random.default_rng(s),
-                                   a.get("reps", (1, 1)), want_at=bool(sum(r.get("ca", [0])))))
+                                   a.get("reps", (1, 1)), want_at=bool(sum(r.get("ca", [0]))),
+                                   modes=a.get("modes") if s < 8 and len(a.get("modes", [])) == len(a.get("reps", (1, 1))) else None))
     verd = tracecheck.validate(ctx, "trace/SaturationTrace.tla", "trace/SaturationTrace.cfg", recs, label="replay", jvms=1,
                                nstates=lambda t: 3)
     for v in verd:
         if v["prop"]:
             x = recs[v["index"]]
-            ctx.violation(vkey(x, v["prop"]), f"replay: clause {v['prop']} false: flags {x['flags']} gain {x['q']} e-6", sc)
+            w = which(x, v["prop"])
+            ctx.violation(vkey(x, v["prop"]), f"replay ({w['mode']}): clause {v['prop']} false: flags {w['flags']} gain {w['q']} e-6", sc)
             break
